@@ -8,8 +8,8 @@ def optPrefixes : List Str := [] :: prefixes
 
 /-- power texts for −3…3 (0 is not in the grammar; the empty text is power 1) -/
 def powerTexts : List Str :=
-  [[], "^1".toList, "^+1".toList, "^2".toList, "^+2".toList, "^3".toList, "^+3".toList,
-   "^-1".toList, "^-2".toList, "^-3".toList]
+  [[], ['^', '1'], ['^', '+', '1'], ['^', '2'], ['^', '+', '2'], ['^', '3'], ['^', '+', '3'],
+   ['^', '-', '1'], ['^', '-', '2'], ['^', '-', '3']]
 
 def expOf (p : Str) : Int := match prefixExpOf p with | some e => e | none => 0
 
